@@ -10,7 +10,8 @@ from irsym import solver as S
 PID = 'C10'
 FUNCS = ['SQuIDS::Evolve (numerical and no-numerics branches)', 'SQuIDS::ini (re-initialisation)', 'SQuIDS::SQuIDS(SQuIDS&&)', 'SQuIDS::operator=(SQuIDS&&)', 'Set_*Terms / Set_AdaptiveStep / Set_NumSteps',
          'squids::RHS / set_system_pointers (last-pointer cache)', 'SQuIDS::Get_t / Get_t_initial', 'PreDerive dispatch']
-OPS_ = ['E', 'E0', 'T1', 'T8', 'Toff', 'ST', 'MC', 'MA', 'RI', 'MR']     # MR: move-assign away, then re-initialise and evolve the moved-from object
+OPS_ = ['E', 'E0', 'T1', 'T8', 'T4', 'Toff', 'ST', 'MC', 'MA', 'RI', 'MR']     # T4: switch one term off that may already be off (Set_GammaScalarTerms(false) / Set_OtherRhoTerms(false)): the other switches keep their meaning
+#      # MR: move-assign away, then re-initialise and evolve the moved-from object
 
 
 def histories(tier, seed):
@@ -26,9 +27,11 @@ def histories(tier, seed):
     rng = random.Random(seed + 17)
     rng.shuffle(four)
     rng.shuffle(base)
+    # always run: a setter called for a term that is off while another term of the same kind stays on (the numerics-needed bookkeeping must not forget it)
+    fixed = [['T8', 'T1', 'T4', 'E'], ['T8', 'T4', 'T1', 'E'], ['T4', 'E', 'T8', 'E']]
     if tier == 'quick':
-        return base[:90] + four[:40]
-    return base + four[:600]
+        return base[:90] + four[:40] + fixed
+    return base + four[:600] + fixed
 
 
 def run_history(out, solver, hist, d, nx, nrho, nsc, reuse):
@@ -136,10 +139,12 @@ def run_history(out, solver, hist, d, nx, nrho, nsc, reuse):
                         dec.candidate(key + ':views', 'after Evolve the scalar view of node %d is not the stored state at its documented offset, at %s' % (ix, where), **info)
                         return s
                 out['witnesses']['reachability'] += 1
-            elif op in ('T1', 'T8', 'Toff'):
-                newmask = {'T1': mask ^ 1, 'T8': (mask ^ 16) if cfg[3] else mask ^ 2, 'Toff': 0}[op]
+            elif op in ('T1', 'T8', 'T4', 'Toff'):
+                newmask = {'T1': mask ^ 1, 'T8': (mask ^ 16) if cfg[3] else mask ^ 2, 'T4': (mask & ~8) if cfg[3] else (mask & ~4), 'Toff': 0}[op]
                 if op == 'Toff':
                     s.ok('h_sys_switches', [obj, 0, step % 5])
+                elif op == 'T4':
+                    s.ok('h_sys_switch_one', [obj, 3 if cfg[3] else 2, 0])
                 else:
                     # a toggle is ONE setter call (the last one before the next Evolve): Set_CoherentRhoTerms, or Set_OtherScalarTerms / Set_NonCoherentRhoTerms
                     which = 0 if op == 'T1' else (4 if cfg[3] else 1)
@@ -275,9 +280,11 @@ for step,op in enumerate(cfg['hist']):
         vw=(ctypes.c_ulong*(nx*(2*nrho+2)))(); lib.h_sys_views(p,nx,nrho,vw)
         for i in range(0,len(vw),2):
             if vw[i]!=vw[i+1] and not (nsc==0 and (i//2)%(nrho+1)==nrho): problems.append('step %d: in-step view %d differs from the stored state'%(step,i//2)); break
-    elif op in ('T1','T8','Toff'):
-        newmask={'T1':mask^1,'T8':(mask^16) if nsc else mask^2,'Toff':0}[op]
+    elif op in ('T1','T8','T4','Toff'):
+        newmask={'T1':mask^1,'T8':(mask^16) if nsc else mask^2,'T4':(mask&~8) if nsc else (mask&~4),'Toff':0}[op]
+        lib.h_sys_switch_one.argtypes=[V,U,U]
         if op=='Toff': lib.h_sys_switches(p,0,step%5)
+        elif op=='T4': lib.h_sys_switch_one(p,3 if nsc else 2,0)
         else:
             which=0 if op=='T1' else (4 if nsc else 1); lib.h_sys_switch_one.argtypes=[V,U,U]; lib.h_sys_switch_one(p,which,(newmask>>which)&1)
         mask=newmask
@@ -330,7 +337,7 @@ def main(tier):
     chk.candidates = []
     nchunks = 16
     items = [(k, nchunks, tier, chk.seed) for k in range(nchunks)]
-    chk.cov['bounds'] = {'histories': 'sequences of <=3 operations (all) and seeded 4-operation sequences over {Evolve(dt), Evolve(0), toggle coherent / scalar(or non-coherent) switch, all terms off, adaptive<->fixed stepping, move-construct, move-assign, re-initialise}; quick tier: seeded sample of 130',
+    chk.cov['bounds'] = {'histories': 'sequences of <=3 operations (all) and seeded 4-operation sequences over {Evolve(dt), Evolve(0), toggle coherent / scalar(or non-coherent) switch, switch a (possibly already disabled) term off, all terms off, adaptive<->fixed stepping, move-construct, move-assign, re-initialise}; quick tier: seeded sample of 130',
                          'configurations': '(d,nx,nrho,nscalars) = (2,2,1,1); thorough adds (3,3,2,0)', 'allocator': 'every second history runs with an allocator that hands freed blocks out again (address reuse makes stale cached pointers observable)',
                          'driver': 'GSL stub with scripted callback sequences (see C04)'}
     chk.cov['domains'] = ['R (exact reals): dt, t_ini symbolic; the fixed-step clock t + n*(dt/n) is compared as a polynomial identity']
